@@ -235,8 +235,10 @@ class SeqHandler:
         return NotImplemented
 
     def zip(self, I, a):
-        if any(isinstance(x, SymSeq) for x in a):
-            raise OutOfSubset("zip over symbolic sequences")
+        from . import loops
+
+        if any(loops.as_gen(I, x) is not None for x in a):
+            return loops.zip_gen(I, a)
         return NotImplemented
 
     def repeat(self, I, seq, n):
